@@ -911,10 +911,10 @@ fn emb_ops_overlap(recs: &[HRec]) -> bool {
     })
 }
 
-/// `false` until the coordinator has decided about the finding (known finding or repair applied):
-/// the verdict of the exactness oracle for scans with a prefix without end key is an `observe`
-/// record; every other deviation of a scan from `starts_with` is a violation as before
-const SCAN_OVERRETURN_IS_VIOLATION: bool = false;
+/// the repaired defect 27855097 (a scan whose prefix has no end key returned the rest of its
+/// metadata shard) is a regression oracle: a history that is linearizable only once such scans are
+/// allowed EXACTLY that over-return is reported under the class of the fixed finding
+const SCAN_OVERRETURN_IS_VIOLATION: bool = true;
 
 // ------------------------------------------------------------------ generators
 
@@ -1382,10 +1382,10 @@ impl Ctx<'_> {
             self.rep.hit("oracle:quiescent_views_coherent");
         }
         let stale_scan = progs.iter().flatten().any(|op| matches!(op, Op::PutD(k, v) if k.cls() != Cls::E && k.cls() != Cls::C && v.vec != VecF::N));
-        // a scan whose prefix has no end key (`next_prefix` = None: last byte 7F / BF) returns the
-        // rest of its metadata shard (Lean: scan_prefix_without_successor_witness,
-        // scan_unbounded_prefix_returns_rest_of_shard).  When the history is linearizable once
-        // such scans are allowed EXACTLY that result, the finding is the scan's over-return.
+        // before 27855097 a scan whose prefix has no end key (`next_prefix` = None: last byte 7F / BF)
+        // returned the rest of its metadata shard (Lean: scan_prefix_without_successor_old_witness,
+        // scan_old_exact_iff_prefix_bounded).  When the history is linearizable once such scans
+        // are allowed EXACTLY that result, the failure is that over-return.
         let no_end_key = scans_without_end_key(&hist);
         if !ok && !no_end_key.is_empty() && linearizable_with(&hist, Relax { rest_of_shard: true, ignore: &[] }).0 {
             let class = "tensor_store.metadata_slab.scan/prefix_without_end_key_returns_rest_of_shard";
@@ -1398,14 +1398,11 @@ impl Ctx<'_> {
                 })
                 .collect();
             let input = with(base, json!({"class": class, "what": what, "scans": extra, "real_history": o.hist_s}));
-            self.rep.hit(&format!("observe:{class}"));
+                        self.scan_observed += 1;
             if SCAN_OVERRETURN_IS_VIOLATION {
                 self.violation(class, what, input);
-            } else {
-                self.scan_observed += 1;
-                if self.scan_observed <= 3 {
-                    self.rep.observe(input);
-                }
+            } else if self.scan_observed <= 3 {
+                self.rep.observe(input);
             }
             return self.durable_oracle(progs, wal, o, base, &incoherent);
         }
@@ -1569,7 +1566,7 @@ fn main() {
 
     // ---- FIRST: prefix scans over keys that are arbitrary strings, sequential and directed
     //      (deterministic for every seed): prefixes without an end key (`next_prefix` = None: the
-    //      reported over-return), prefixes that cut across key classes, the empty key, keys that
+    //      regression cases of the over-return repaired by 27855097), prefixes that cut across key classes, the empty key, keys that
     //      resemble a class prefix, characters of 1-4 bytes; with and without the log
     {
         let mut r = root.fork("directed.scan_prefix");
@@ -1577,9 +1574,9 @@ fn main() {
         let v = |t: u32| Val { tag: t, vec: VecF::N };
         let g = |t: u32| Val { tag: t, vec: VecF::Good(t) };
         let scenarios: Vec<(&str, Vec<Op>)> = vec![
-            // the report: put("q1"), put("a\x7fx"), scan("a\x7f") returns both
+            // the report (before 27855097): put("q1"), put("a\x7fx"), scan("a\x7f") returned both
             ("del_prefix_returns_rest_of_shard", vec![Op::Put(k("q1"), v(1)), Op::Put(k("a\u{7f}x"), v(2)), Op::Scan(k("a\u{7f}")), Op::Scan(k("a")), Op::Scan(k("q")), Op::Scan(k("a\u{7f}x"))]),
-            // put("ӿx"), scan("ÿ") returns it (C3 BF -> C3 C0 is not UTF-8; D3 and C3 are both 3 mod 16)
+            // put("ӿx"), scan("ÿ") returned it (C3 BF -> C3 C0 is not UTF-8; D3 and C3 are both 3 mod 16)
             ("bf_prefix_returns_rest_of_shard", vec![Op::Put(k("ӿx"), v(1)), Op::Put(k("ÿ1"), v(2)), Op::Scan(k("ÿ")), Op::Scan(k("ӿ")), Op::Scan(k("ÿ1"))]),
             // a realistic one: user names in Cyrillic, prefix ending in `п` (D0 BF)
             ("cyrillic_prefix", vec![Op::Put(k("user:п1"), v(1)), Op::Put(k("user:р2"), v(2)), Op::Put(k("user:я"), v(3)), Op::Put(k("uzz"), v(4)), Op::Put(k("emb:1"), g(5)), Op::Scan(k("user:п")), Op::Scan(k("user:")), Op::Scan(k("user:р")), Op::Del(k("user:п1")), Op::Scan(k("user:п"))]),
@@ -1607,7 +1604,7 @@ fn main() {
                 let before = ctx.scan_observed;
                 ctx.case(&format!("directed.scan_prefix.{name}"), &[prog], if durable { Some(SyncMode::Immediate) } else { None }, None, &mut r, true);
                 if name.ends_with("returns_rest_of_shard") || name == "cyrillic_prefix" || name == "over_return_crosses_classes" {
-                    ctx.rep.hit(if ctx.scan_observed > before { "scan_over_return_reproduced_on_real_store" } else { "scan_over_return_not_reproduced_on_real_store" });
+                    ctx.rep.hit(if ctx.scan_observed > before { "regression:scan_prefix_without_end_key_over_returns" } else { "scan_prefix_without_end_key_is_exact_on_real_store" });
                 }
             }
         }
@@ -1971,7 +1968,7 @@ fn main() {
         "oracle:keys_compared_live_vs_recovered",
         "store:plain", "store:bloom_filter", "store:instrumentation", "store:bloom_filter_and_instrumentation",
         "scan:prefix_without_end_key", "scan:prefix_with_end_key", "scan:empty_prefix", "scan:class_prefix",
-        "key:not_a_class_alias", "key:empty", "key:multibyte",
+        "key:not_a_class_alias", "key:empty", "key:multibyte", "scan_prefix_without_end_key_is_exact_on_real_store",
         "crash:while_a_durable_write_holds_the_mutex", "crash:nobody_inside_a_durable_write",
         "oracle:crash_mid_run_recovers_live_or_inflight_write_completed",
     ]
